@@ -168,17 +168,38 @@ class MatchesSetwise:
         self.matchers = matchers
 
     def match(self, observed):
-        remaining_matchers = set(self.matchers)
-        not_matched = []
-        for value in observed:
-            for matcher in remaining_matchers:
-                if matcher.match(value) is None:
-                    remaining_matchers.remove(matcher)
-                    break
-            else:
-                not_matched.append(value)
+        matchers = list(self.matchers)
+        values = list(observed)
+        # Find a largest one-to-one assignment of values to matchers by
+        # augmenting paths, so that the verdict does not depend on the order
+        # in which matchers and values happen to be tried.
+        verdicts = {}
+
+        def fits(v, m):
+            if (v, m) not in verdicts:
+                verdicts[v, m] = matchers[m].match(values[v]) is None
+            return verdicts[v, m]
+
+        assigned = {}
+
+        def place(v, tried):
+            for m in range(len(matchers)):
+                if m in tried or not fits(v, m):
+                    continue
+                tried.add(m)
+                if m not in assigned or place(assigned[m], tried):
+                    assigned[m] = v
+                    return True
+            return False
+
+        for v in range(len(values)):
+            place(v, set())
+        placed = set(assigned.values())
+        not_matched = [values[v] for v in range(len(values)) if v not in placed]
+        remaining_matchers = [
+            matchers[m] for m in range(len(matchers)) if m not in assigned
+        ]
         if not_matched or remaining_matchers:
-            remaining_matchers = list(remaining_matchers)
             # There are various cases that all should be reported somewhat
             # differently.
 
